@@ -108,3 +108,33 @@ Proof. apply list_eq_dec, list_eq_dec. decide equality; apply string_dec. Define
 Definition ins_mismatches (cs : list (nat * locs * list requirement * list (list (string * string)))) : list nat :=
   flat_map (fun c => match c with (i, L, reqs, ins) =>
      if ins_eq_dec (endpoint_ins L reqs) ins then [] else [i] end) cs.
+
+(* ---- the request on the wire ---- *)
+Definition mk_field (a : cattr) (pl : place) (v : bytes) : field := {| f_attr := a; f_place := pl; f_val := v |}.
+
+Definition opt_bytes_eq_dec (a b : option bytes) : {a = b} + {a <> b}.
+Proof. decide equality; apply bytes_eq_dec. Defined.
+
+Definition kvs_eq_dec : forall a b : list (string * bytes), {a = b} + {a <> b}.
+Proof. apply list_eq_dec. decide equality; [apply bytes_eq_dec|apply string_dec]. Defined.
+
+(* (index, places of the credential attributes, requirements, Basic pair given to the client if the
+    endpoint has a Basic scheme, fields set by the client in payload order,
+    observed: was a request sent, headers (name, value or absent; a Basic blob base64-decoded),
+    first query values (name, value or absent), string attributes of a JSON object body, JSON string body) *)
+Definition wire_case : Type :=
+  nat * list (cattr * place) * list requirement * option (bytes * bytes) * list field *
+  bool * list (string * option bytes) * list (string * option bytes) * list (string * bytes) * option bytes.
+
+Definition wire_mismatches (cs : list wire_case) : list nat :=
+  flat_map (fun c => match c with (i, P, reqs, basic, fs, sent, hdrs, qrys, body, whole) =>
+     match encode_wire (bearer_auth P reqs) basic fs with
+     | None => if sent then [i] else []
+     | Some w =>
+       if sent
+          && forallb (fun h => if opt_bytes_eq_dec (get_last (fst h) (w_hdr w)) (snd h) then true else false) hdrs
+          && forallb (fun q => if opt_bytes_eq_dec (get_first (fst q) (w_qry w)) (snd q) then true else false) qrys
+          && (if kvs_eq_dec (w_body w) body then true else false)
+          && (if opt_bytes_eq_dec (w_whole w) whole then true else false)
+       then [] else [i]
+     end end) cs.
